@@ -928,8 +928,13 @@ def check_case(case, ctx):
             overriders = [ob for ob in blocks if ob is not b and W['idents'].get(ob['ident']) is not None
                           and W['idents'][ob['ident']]['kind'] == 'function' and W['idents'][ob['ident']].get('owner') == e['owner']
                           and (ob['ident'] == inv or _ann(ob, 'virtual') == e['name'])]
-            if overriders and ctx.known('vfunc-own-block-overridden-by-invoker-block'):
-                overridden = True
+            theirs = set()
+            for ob in overriders:
+                theirs.update(c[0] for c in _expected_generic(ob) if c[0] != 'skip')
+                theirs.update(a for a, v in ob['anns'] if a in ASYNC_ATTRS)
+            if theirs & (set(c[0] for c in checks) | set(a for a, v in b['anns'] if a in ASYNC_ATTRS)) \
+                    and ctx.known('vfunc-own-block-overridden-by-invoker-block'):
+                overridden = theirs
         if e['kind'] == 'field' and e['cbfield'] and b['since']:
             if ctx.known('since-lost-on-callback-field'):
                 checks = [c for c in checks if c[0] != 'since']
@@ -966,8 +971,10 @@ def check_case(case, ctx):
                 else:
                     checks.append((a, _attr_is('emitter', v)))
             elif a in ASYNC_ATTRS:
-                if a == 'async-func' and ctx.known('async-func-annotation-overridden-by-heuristic'):
-                    continue
+                if a == 'async-func' and e['kind'] == 'function' and e.get('owner') in W['classes'] \
+                        and (e['name'] + '_async') in W['classes'][e['owner']]['methods'] \
+                        and ctx.known('async-func-annotation-overridden-by-heuristic'):
+                    continue        # X (async-func Y) where X_async/X_finish exist: the heuristic overwrites Y
                 checks.append((a, _attr_is(ASYNC_ATTRS[a], v)))
             elif a in ('set-property', 'get-property'):
                 if _has(b, 'constructor'):
@@ -1007,7 +1014,7 @@ def check_case(case, ctx):
                                     % (b['ident'], v, me.attrs.get('shadows'), tgt[0].attrs.get('shadowed-by') if tgt else None, render(b)))
                 ctx.label('direct:rename-to')
         if overridden:
-            checks = []
+            checks = [c for c in checks if c[0] not in overridden]
         for clause, chk in checks:
             for x in primary:
                 prob = chk(x)
@@ -1224,7 +1231,7 @@ def _rules(b, e, W, blocks, by_ident, component, A, Bi):
 
 
 def plan(tier):
-    n = 24 if tier == 'quick' else 2500
+    n = 24 if tier == 'quick' else 1200
     if os.environ.get('VERIF_C03_N'):          # development aid: cases per shard
         n = int(os.environ['VERIF_C03_N'])
     return [{'n': n, 'part': i} for i in range(16)]
